@@ -125,7 +125,7 @@ pub fn c04_triple<G: GroupApi>(a: &Val<G>, b: &Val<G>, c: &Val<G>) -> Result<u32
     let _ = c;
     Ok(2)
 }
-const C04_CLASSES: [&str; 12] = [
+const C04_CLASSES: [&str; 13] = [
     "arm:z1=1,z2=1",
     "arm:z1!=1,z2=1",
     "arm:z1=1,z2!=1",
@@ -138,6 +138,7 @@ const C04_CLASSES: [&str; 12] = [
     "rel:doubled(B=2A)",
     "equal&jacobian+affine",
     "opposite&both-jacobian",
+    "rel:opposite-y-different-x",
 ];
 fn c04_class<G: GroupApi>(a: &Val<G>, b: &Val<G>) -> u32 {
     let one = G::RF::one();
@@ -168,6 +169,9 @@ fn c04_class<G: GroupApi>(a: &Val<G>, b: &Val<G>) -> u32 {
         }
     } else if mulm(&a.d, lam, r()) == b.d || mulm(&b.d, lam, r()) == a.d {
         c |= 1 << 7;
+    } else if addm(&mulm(&a.d, lam, r()), &b.d, r()).is_zero() || addm(&mulm(&b.d, lam, r()), &a.d, r()).is_zero() {
+        // B = -lambda*A (or A = -lambda*B): y_B = -y_A with x_B != x_A
+        c |= 1 << 12;
     } else if mulm(&a.d, &n(2), r()) == b.d {
         c |= 1 << 9;
     } else {
